@@ -180,6 +180,18 @@ CHECKS = {
         note='Trusted: value projection (row.get, missing = null). The unpivot pattern family is literal names plus the one-group regex x(.).',
         technique='TLA+ definitions model-checked with TLC; every exported case replayed; recorded random runs judged by the TLA+ definitions',
         design='6/C17', specs=['ProcRows.tla', 'RowsTrace.tla']),
+    'C15': dict(
+        level='model_checking',
+        text='ProcFields.tla (with Regex.tla) defines select_fields (selection order), delete_fields / rename_fields (original order, first '
+             'matching pair, positions and values kept), add_computed_field (sum/avg/min/max/multiply/constant/join/format over the non-null '
+             'source cells of one row, incl. 0 and negative values) and find_replace, with regex on/off (off = the pattern text compared '
+             'literally); TLC checks SelectOK, DeleteOK, RenameOK on all ~80 000 cases: schemas of <=3 names from a catalogue with prefixes of one '
+             'another and the metacharacter ".", sequences of <=2 patterns (every catalogue name written as a pattern, a.*, a|ab, ., .b). '
+             'Every exported case (quick: 7000 seeded + all find_replace + a quarter of the computed ones) runs on the real processor: '
+             'resulting field list = definition, every row\'s keys = that list, kept/renamed fields keep their values, computed value = definition.',
+        note='Two genuine defects repaired (half-anchored alternations in four processors; find_replace turning null into the text None). add_field is covered through C10/C02.',
+        technique='TLA+ definitions (regex semantics included) model-checked with TLC; every exported case replayed on the real processors',
+        design='6/C15', specs=['ProcFields.tla', 'Regex.tla']),
 }
 
 NOT_YET = 'check not built yet (build in progress, see DESIGN.md section 10)'
